@@ -147,6 +147,20 @@ def run(ctx, idx):
         raise AnalysisError("Program.to_string vanished")
     funcs = K.helper_closure(idx, ts)
     byname = {f.name: f for f in funcs}
+    # ------------------------------------------------------------------ g: what is serialised is what was given
+    ctx.rule("C15.g", "to_string writes the values the program was built with: an Argument's `value` is assigned by its constructor only (C20.d's reading of the package) - a run that stores cleaned values back (types, absolute paths, command objects) makes the serialised text another program, or no program at all (`DataType = <class 'float'>` does not parse).")
+    n_val = 0
+    for mod_, f_, n_ in K.scoped_nodes(idx):
+        if f_ is None or mod_.name.startswith("mpilot.parser"):
+            continue
+        if isinstance(n_, ast.Attribute) and isinstance(n_.ctx, ast.Store) and n_.attr == "value":
+            selfn_ = K.self_name(f_) if f_.cls is not None else None
+            own_ = isinstance(n_.value, ast.Name) and n_.value.id == selfn_
+            n_val += 1
+            if own_:
+                continue
+            ctx.violate("C15.g", "%s::argument-value-overwritten" % f_.key, mod_.rel, n_.lineno, "`%s = ...` replaces the value an argument was built with: from then on to_string serialises the stored (cleaned) form - a type object, an absolute path - instead of what was loaded or given" % K.src(n_))
+    ctx.floor("C15.g", "stores to a `value` attribute in the package", n_val, 1)
     # ------------------------------------------------------------------ f: serialised text is final
     ctx.rule("C15.f", "Serialised text is final: in Program.to_string text that already holds a serialised value is only inserted (format argument, +, join); it is never the format template and never rewritten by content (split / replace / strip / slicing / indentation helpers), so braces, line breaks and blanks inside a quoted value survive (taint analysis over to_string and its nested helpers).")
     from . import texttaint
